@@ -95,7 +95,7 @@ def _signed_values(draw, n, mag=1e3):
     sign pattern; mixed patterns contain both signs by construction (n >= 2)."""
     mags = draw(st.lists(st.one_of(gen.f32(1e-3, mag), gen.f32(0.1, 3.0), st.sampled_from([1.0, mag]),
                                    st.sampled_from([1.0, 0.0])), min_size=n, max_size=n))
-    pattern = draw(st.sampled_from(["mixed"] * 6 + ["pos", "neg"]))
+    pattern = draw(st.sampled_from(["mixed"] * 8 + ["pos", "neg"]))
     if pattern != "mixed":
         signs = [1 if pattern == "pos" else 0] * n
     else:
@@ -150,6 +150,10 @@ def _base(draw, heads):
         "pscale": draw(st.sampled_from([1.0, 1.0, 0.1, 3.0])),
         "obs_scale": draw(st.sampled_from([1.0, 3.0])),
     }
+    if head != "softmax" and case["pscale"] == 3.0:
+        # x3 parameters on x3 observations drive log-variances to +-20: the float32 log-density is then
+        # dominated by rounding (cases would only be labelled ill-conditioned)
+        case["obs_scale"] = 1.0
     return case
 
 
@@ -187,9 +191,9 @@ def _value_fn(kind, case, policy, seed):
 KAPPA_MAX = 1e4  # beyond this the float32 log-density itself is meaningless (see logp_conditioning)
 
 
-def _grad_check(key, g_state, gref, gross, detail="", kappa=0.0):
+def _grad_check(key, g_state, gref, gross, detail="", kappa=0.0, extra=None):
     g = pn.flat_params(g_state)
-    ok, msg = pn.compare_grads(g, gref, gross, kappa=kappa)
+    ok, msg = pn.compare_grads(g, gref, gross, kappa=kappa, extra=extra)
     check(ok, key, lambda: f"{detail} {msg}")
     return g
 
@@ -223,12 +227,14 @@ def pg_cases(draw):
         case["baseline"] = draw(st.sampled_from(["separate", "shared"]))
         case["gamma"] = draw(gen.gammas())
     if routine in ("reinforce", "actor_critic"):
-        case["gd_gamma"] = draw(st.one_of(st.none(), gen.gammas())) if routine == "reinforce" else draw(gen.gammas())
+        # per-step discount gamma^t (0 silences every step but the first: kept, but rare)
+        gd = st.one_of(st.sampled_from([1.0, 0.99, 0.9, 0.5]), gen.gammas())
+        case["gd_gamma"] = draw(st.one_of(st.none(), gd)) if routine == "reinforce" else draw(gd)
         case["v_scale"] = draw(st.sampled_from([1.0, 30.0]))
         case["v_seed"] = draw(gen.seeds())
         # True: returns / rewards are built so that the *effective* weights (after the baseline / the
         # bootstrap) carry the drawn values and signs; False: the drawn values are the raw returns / rewards
-        case["w_effective"] = draw(st.sampled_from([True, True, False]))
+        case["w_effective"] = draw(st.sampled_from([True, True, True, True, False]))
     return case
 
 
@@ -258,6 +264,7 @@ def run_pg(case):
             check(close(float(direct), float(loss), rel=1e-6, abs_=1e-30), "pg.a2c.value_is_pseudo_loss",
                   lambda: f"{float(direct)} vs {float(loss)}")
             w_ref = w32
+            w_err = np.zeros(n)
         elif routine == "reinforce":
             vf = None if case["baseline"] == "none" else _value_fn(case["baseline"], case, policy, case["v_seed"])
             gd = None if case["gd_gamma"] is None else np.float32(case["gd_gamma"]) ** np.arange(n, dtype=np.float32)
@@ -267,8 +274,11 @@ def run_pg(case):
             loss, grad = reinforce_gradient(policy, vf, obs, actions, w_in,
                                             None if gd is None else jnp.asarray(gd))
             w_ref = w32 - (vflat(vf, obs) if vf is not None else 0.0)
+            # the routine forms returns - baseline (and the product with the discount) in float32
+            w_err = 2e-7 * (np.abs(w32) + (np.abs(vflat(vf, obs)) if vf is not None else 0.0))
             if gd is not None:
                 w_ref = w_ref * gd.astype(np.float64)
+                w_err = w_err * gd.astype(np.float64)
             labels.append("baseline=" + case["baseline"])
         else:
             vf = _value_fn(case["baseline"], case, policy, case["v_seed"])
@@ -281,6 +291,8 @@ def run_pg(case):
             loss, grad = actor_critic_policy_gradient(policy, vf, obs, actions, next_obs, w_in,
                                                       jnp.asarray(gd), gamma)
             w_ref = gd.astype(np.float64) * (w32 + gamma * vflat(vf, next_obs) - vflat(vf, obs))
+            w_err = 2e-7 * gd.astype(np.float64) * (
+                np.abs(w32) + 2.0 * gamma * np.abs(vflat(vf, next_obs)) + np.abs(vflat(vf, obs)))
             labels.append("baseline=" + case["baseline"])
     except Exception as e:  # noqa: BLE001
         if n == 1:
@@ -294,12 +306,14 @@ def run_pg(case):
     terms = w_ref * logp
     ref = -terms.mean()
     check(np.shape(loss) == (), sub + ".value.shape", f"{np.shape(loss)}")
-    check(_within(loss, ref, max(1e-3, np.abs(terms).max()), (np.abs(w_ref) * err).mean()), sub + ".value",
+    check(_within(loss, ref, max(1e-3, np.abs(terms).max()), (np.abs(w_ref) * err + w_err * np.abs(logp)).mean()),
+          sub + ".value",
           lambda: f"loss={float(loss)} ref={ref} w={w_ref.tolist()} logp={logp.tolist()}")
     # gradient: weights are constants -> -(1/N) sum_i w_i d logp_i / d theta
     jac = _logp_jacobian(case, policy, info, obs, actions)
     gref, gross = pn.contract(jac, -w_ref / n)
-    _grad_check(sub + ".grad.weights_constant", grad, gref, gross, f"w={w_ref.tolist()}", kappa)
+    _, w_extra = pn.contract(jac, w_err / n)
+    _grad_check(sub + ".grad.weights_constant", grad, gref, gross, f"w={w_ref.tolist()}", kappa, w_extra)
     both = bool(np.any(w_ref > 0) and np.any(w_ref < 0))
     gn = pn.grad_norm(gref)
     labels += ["both-signs" if both else "one-sign", "grad>0" if gn > 0 else "grad=0"]
@@ -321,8 +335,11 @@ def ppo_cases(draw):
     case["ret"] = draw(_signed_values(n, 1e3 if case["ret_mode"] == "far" else 2.0))
     mode = draw(st.sampled_from(["mixed", "mixed", "mixed", "all_clipped", "unchanged"]))
     case["mode"] = mode
-    region = st.tuples(st.sampled_from(["same", "in", "above", "above", "below", "below"]),
-                       st.floats(0.0, 1.0, allow_nan=False), st.integers(0, 1))
+    # region of the probability ratio, position inside it (u), and distance class from the clip boundary:
+    # ratios are placed from 0.3 % beyond / inside a boundary (between 1 +- clip and exp(+-clip)) to far away
+    region = st.tuples(st.sampled_from(["above", "below", "in", "above", "below", "same"]),
+                       st.floats(0.0, 1.0, allow_nan=False),
+                       st.sampled_from([0.003, 0.02, 0.2, 1.0, -1.0]))
     regions = [list(r) for r in draw(st.lists(region, min_size=n, max_size=n))]
     if n >= 2 and mode == "mixed":
         # by construction: one sample clipped on its favoured side, and (n >= 3) the other clip side
@@ -343,21 +360,31 @@ def ppo_cases(draw):
 
 
 def _ratio_targets(case, adv):
+    """(kind, target ratio) per sample; kind in same | in | above | below.
+    above: (1+c)(1+d), below: (1-c)/(1+d); in: just inside the upper / lower boundary,
+    (1+c)/(1+d) or (1-c)(1+d), or (distance class -1) anywhere within 1 +- 0.8c."""
     c = float(np.float32(case["clip"]))
     out = []
-    for i, (kind, u, s) in enumerate(case["regions"]):
+    for i, (kind, u, dist) in enumerate(case["regions"]):
         if case["mode"] == "unchanged":
             kind = "same"
         elif case["mode"] == "all_clipped":
             kind = "above" if adv[i] >= 0 else "below"
+        d = abs(dist) * (1.0 + u)
         if kind == "same":
             rho = 1.0
         elif kind == "in":
-            rho = 1.0 + (1 if s else -1) * u * 0.8 * c
+            if dist < 0:
+                rho = 1.0 + (2.0 * u - 1.0) * 0.8 * c
+            else:
+                hi_side = (i + int(u * 1e6)) % 2 == 0
+                rho = (1.0 + c) / (1.0 + d) if hi_side else (1.0 - c) * (1.0 + d)
+                if not (1.0 - c) < rho < (1.0 + c):  # large d with a small clip range
+                    rho = 1.0
         elif kind == "above":
-            rho = (1.0 + c) * (1.05 + 2.0 * u)
+            rho = (1.0 + c) * (1.0 + d)
         else:
-            rho = (1.0 - c) / (1.05 + 2.0 * u)
+            rho = (1.0 - c) / (1.0 + d)
         out.append((kind, rho))
     return out
 
@@ -407,10 +434,12 @@ def run_ppo(case):
     if kappa > KAPPA_MAX:
         return Outcome(labels=labels + ["ill-conditioned"], nontrivial=False)
     ratio = np.exp(logp - old32.astype(np.float64))
-    # the ratios sit where the generator put them (harness self-check, 2% slack)
-    for r, (kind, rho) in zip(ratio, targets):
-        if abs(r / rho - 1.0) > 0.02:
-            return Outcome(labels=labels + ["excluded-ratio-misplaced"], nontrivial=False)
+    # the ratios sit where the generator put them, on a known side of both clip boundaries: the float32
+    # log-density of the library and the float64 reference may differ by err (conditioning)
+    for r, e, (kind, rho) in zip(ratio, err, targets):
+        near = min(abs(r / (1.0 + c) - 1.0), abs(r / (1.0 - c) - 1.0))
+        if abs(r / rho - 1.0) > 20.0 * e + 2e-4 or (kind != "same" and near < 20.0 * e + 5e-4):
+            return Outcome(labels=labels + ["excluded-ratio-side-ambiguous"], nontrivial=False)
     s1 = ratio * adv
     s2 = np.clip(ratio, 1.0 - c, 1.0 + c) * adv
     P = -np.minimum(s1, s2).mean()
@@ -516,13 +545,13 @@ def _unchanged(before, module, key, what):
     check(not d, key, lambda: f"{what} changed: {d[:4]}")
 
 
-def _sgd_step_check(key, old, new, g, lr):
+def _sgd_step_check(key, old, new, g, lr, kappa=0.0):
     """new == old - lr * g up to float32 rounding of the subtraction and of the
     (jitted) gradient computed inside the wrapper."""
     G = max(float(np.max(np.abs(v))) for v in g.values())
     for k in old:
         # 2e-7: float32 noise floor of a gradient whose intermediate values are O(1), whatever its own size
-        tol = 4e-7 * np.abs(old[k]) + lr * (1e-3 * np.abs(g[k]) + 2e-5 * G + 2e-7)
+        tol = 4e-7 * np.abs(old[k]) + lr * (1e-3 * np.abs(g[k]) + (2e-5 + 4e-7 * kappa) * G + 2e-7)
         check(bool(np.all(np.abs(new[k] - (old[k] - lr * g[k])) <= tol)), key,
               lambda: f"{k}: max dev {np.max(np.abs(new[k] - (old[k] - lr * g[k])))}")
 
@@ -701,6 +730,7 @@ def sac_cases(draw):
     case = draw(_base(["tanh_gaussian", "tanh_gaussian", "gaussian"]))
     case["q_hidden"] = [4] if _QUICK() else draw(st.sampled_from([[4], [5, 3]]))
     case["q_seed"] = draw(gen.seeds())
+    case["q_kind"] = draw(st.sampled_from(["N1", "N", "N1"]))
     case["alpha"] = draw(st.one_of(st.sampled_from([0.0, 0.2, 1.0]), gen.f32(0.0, 5.0)))
     case["alpha_array"] = draw(st.booleans())
     case["key_seed"] = draw(gen.seeds())
@@ -714,9 +744,10 @@ def _sac_parts(case):
 
     od, ad = case["obs_dim"], case["act_dim"]
     policy, info = _policy(case)
-    q = ContinuousClippedDoubleQNet(pn.make_mlp(od + ad, 1, case["q_hidden"], case["q_seed"], "tanh"),
-                                    pn.make_mlp(od + ad, 1, case["q_hidden"], case["q_seed"] + 1, "tanh"))
-    return policy, info, q
+    qs = [pn.make_mlp(od + ad, 1, case["q_hidden"], case["q_seed"] + i, "tanh") for i in range(2)]
+    if case.get("q_kind", "N1") == "N":  # critics with output shape (N,)
+        qs = [_classes()["FlatCritic"](m) for m in qs]
+    return policy, info, ContinuousClippedDoubleQNet(*qs)
 
 
 def _noise(case, policy, info, obs, actions):
@@ -742,7 +773,7 @@ def run_sac(case):
     key = jax.random.key(case["key_seed"])
     a32 = np.float32(case["alpha"])
     alpha = jnp.asarray([a32]) if case["alpha_array"] else float(a32)
-    labels = [case["head"], f"n={n}", "alpha=0" if a32 == 0 else "alpha>0"]
+    labels = [case["head"], f"n={n}", "alpha=0" if a32 == 0 else "alpha>0", "q=" + case.get("q_kind", "N1")]
     try:
         loss, grad = nnx.value_and_grad(sac_actor_loss, argnums=0)(policy, q, alpha, key, obs)
     except Exception as e:  # noqa: BLE001
@@ -771,8 +802,8 @@ def run_sac(case):
         a = mean + std * eps
         lp = pn.jax_logp(case["head"], out, a, info)
         oa = jnp.concatenate((obs, a), axis=-1)
-        qq = jnp.minimum(q.q1(oa), q.q2(oa))
-        return jnp.mean(a32 * lp - qq[..., 0])
+        qq = jnp.minimum(q.q1(oa), q.q2(oa)).reshape(-1)
+        return jnp.mean(a32 * lp - qq)
 
     gref = pn.grad_of(policy, objective, (q,))
     g = _grad_check("sac_actor.grad.pathwise", grad, gref, None, f"alpha={float(a32)}", kappa)
@@ -784,7 +815,8 @@ def run_sac(case):
         wl = sac_update_actor(policy, opt, q, key, obs, jnp.asarray([a32]) if case["alpha_array"] else jnp.asarray(a32))
         check(_within(wl, ref, scale, extra), "sac_actor.update.returns_loss", lambda: f"{float(wl)} vs {ref}")
         _unchanged(before, q, "sac_actor.update.gradient_reaches_only_actor", "q")
-        _sgd_step_check("sac_actor.update.actor_moves_by_minus_lr_grad", old, pn.flat_params(policy), g, case["lr"])
+        _sgd_step_check("sac_actor.update.actor_moves_by_minus_lr_grad", old, pn.flat_params(policy), g, case["lr"],
+                        kappa)
         labels.append("wrapper")
     labels.append("grad>0" if gn > 0 else "grad=0")
     return Outcome(labels=labels, nontrivial=n >= 2 and gn > 0)
